@@ -194,11 +194,18 @@ SelectiveEqualsFull(s, sel, full, fresh, scale, eps) == SameI(s, sel, full, scal
 EnableVar(s, v)  == LET t == [s EXCEPT !.pen[v] = s.stg[v], !.stg[v] = 0] IN TouchVar(UMSVar(t, v), v)
 DisableVar(s, v) == LET t == TouchVar(UMSVar(s, v), v) IN [t EXCEPT !.pen[v] = 0, !.stg[v] = 0, !.val[v] = R0]
 
-\* freed slots are taken by staged variables that fit, in any order, until none fits (on_disabled_var)
-RECURSIVE SettleSet(_)
-SettleSet(s) ==
+\* freed slots are taken by staged variables that fit, in any order, until none fits (on_disabled_var).
+\* SettleL is the same with a licence that only the attribution of a rejection to a recorded finding uses (Pinned below;
+\* L = TC = {} everywhere else): the variables of L, which already starved before the operation, may be left waiting as
+\* long as they use none of the constraints TC that the operation scans.
+RECURSIVE SettleL(_, _, _)
+SettleL(s, L, TC) ==
   LET E == { v \in Vars(s) : CanEnable(s, v) } IN
-  IF E = {} THEN {s} ELSE UNION { SettleSet(EnableVar(s, v)) : v \in E }
+  (IF \A v \in E : v \in L /\ VCons(s, v) \cap TC = {} THEN {s} ELSE {})
+  \cup UNION { SettleL(EnableVar(s, v), L, TC) : v \in E }
+SettleSet(s) == SettleL(s, {}, {})
+\* the constraints on which on_disabled_var looks for staged variables when v leaves (it returns at once without limit)
+Scanned(s, v) == { c \in VCons(s, v) : s.clim[c] >= 0 }
 
 ConstraintNew(s, b, p, l) ==
   { [s EXCEPT !.cb = Append(@, b), !.cpol = Append(@, p), !.clim = Append(@, l)] }
@@ -208,7 +215,7 @@ VariableNew(s, p, b, n) ==
               !.cap = Append(@, n), !.el = Append(@, <<>>), !.young = Append(@, TRUE), !.val = Append(@, R0)] }
 
 ExpandEnabled(s, c, v) == s.alive[v] /\ c \in Cons(s) /\ (OnC(s, v, c) \/ Len(s.el[v]) < s.cap[v])
-Expand(s, c, v, w) ==
+ExpandL(s, c, v, w, L) ==
   LET I  == ElIdx(s, v, c)
       s1 == IF I = {}                                 \* expand_create_elem (activates the constraint under a condition)
             THEN [s EXCEPT !.el[v] = Append(@, [c |-> c, w |-> w, m |-> w]), !.dirty = TRUE,
@@ -219,15 +226,17 @@ Expand(s, c, v, w) ==
       Fin(t) == IF W(t, v, c) > 0 \/ t.pen[v] > 0
                 THEN (IF t.pen[v] > 0 /\ W(t, v, c) > 0 THEN Touch(UMS(t, c), {c}) ELSE UMS(t, c)) ELSE t IN
   IF s.pen[v] > 0 /\ Slack(s1, c) < 0
-  THEN { Fin([t EXCEPT !.stg[v] = s.pen[v]]) : t \in SettleSet(DisableVar(s1, v)) }    \* no room: the variable is staged
+  THEN { Fin([t EXCEPT !.stg[v] = s.pen[v]]) : t \in SettleL(DisableVar(s1, v), L, Scanned(s1, v)) }  \* no room: staged
   ELSE { Fin(s1) }
+Expand(s, c, v, w) == ExpandL(s, c, v, w, {})
 
-VariableFree(s, v) ==
+VariableFreeL(s, v, L) ==
   LET s1   == TouchVar(UMSVar(s, v), v)
       gone == { c \in VCons(s, v) : \A u \in Vars(s) \ {v} : ~OnC(s, u, c) }     \* make_constraint_inactive
       s2   == [s1 EXCEPT !.alive[v] = FALSE, !.el[v] = <<>>, !.pen[v] = 0, !.stg[v] = 0, !.val[v] = R0,
                          !.mod = @ \ gone, !.act = @ \ gone, !.dirty = TRUE] IN
-  SettleSet(s2)
+  SettleL(s2, L, Scanned(s, v))
+VariableFree(s, v) == VariableFreeL(s, v, {})
 
 UpdateVariableBound(s, v, b) ==
   LET t == UMSAll([s EXCEPT !.vb[v] = b, !.dirty = TRUE], VCons(s, v)) IN
@@ -303,6 +312,25 @@ Post(s, o) ==
              [] o.op = "ff"     -> FastForward(s, o.a)
              [] OTHER -> {s} IN
   { [t EXCEPT !.flags = @ \cup OpFlags(s, o)] : t \in P }
+
+\* ------------------------------------------------------------------ attribution of C18 rejections (never an oracle)
+\* What the pinned commit does where it is known to deviate from Post on the concurrency state (KNOWN_FINDINGS.jsonl):
+\*   suspstaged     update_variable_penalty(v, 0) on a staged variable returns at once: the request survives
+\*   suspnorelease  update_variable_penalty(v, 0) on an enabled variable does not call on_disabled_var: the slot is not
+\*                  handed over, staged variables starve; L = the variables that starve since such a step.  A later
+\*                  free / staging expand only scans the constraints of the variable that leaves (Scanned): the
+\*                  variables of L elsewhere keep waiting although Post (a global SettleSet) would enable them.
+\* A rejected transition is attributed to the finding `tag` when the observed state is in P; anything else, such as a
+\* variable that is *not* in L and is left staged with room, or a variable of L skipped on a scanned constraint, is
+\* not explained by these mechanisms.
+Starving(s) == { v \in Vars(s) : CanEnable(s, v) }
+Pinned(s, o, L) ==
+  LET Out(tag, P) == [tag |-> tag, P |-> { [t EXCEPT !.flags = @ \cup OpFlags(s, o)] : t \in P }] IN
+  IF o.op = "vpen" /\ o.b = 0 /\ s.stg[o.a] > 0 THEN Out("suspstaged", {s})
+  ELSE IF o.op = "vpen" /\ o.b = 0 /\ s.pen[o.a] > 0 THEN Out("suspnorelease", { DisableVar([s EXCEPT !.dirty = TRUE], o.a) })
+  ELSE IF L # {} /\ o.op = "free" THEN Out("suspnorelease", VariableFreeL(s, o.a, L))
+  ELSE IF L # {} /\ o.op = "expand" THEN Out("suspnorelease", ExpandL(s, o.a, o.b, o.c, L))
+  ELSE Out("none", {})
 
 \* ------------------------------------------------------------------ invariants of the reference itself (M)
 RefInv(s) ==
